@@ -372,7 +372,7 @@ fn run(ctx: &mut Ctx) {
 
 fn finish(m: &Merged, tier: Tier) -> Finish {
     let mut f = Finish {
-        rule: "a tree is generated, written by the harness printer and parsed by Expr::parse: the result T is in the parser's image by construction. Then T.to_string() is parsed again and must equal T; every 4th pair is also evaluated and compared. Trees: 41 literal/name leaves alone and under every composite node kind in every slot; every composite kind under every composite kind in every slot; random trees to depth 6 over the boundary pool. A failure is reduced to the smallest failing sub-expression, whose construct is the signature. Every case is non-trivial; distinct by tree".into(),
+        rule: "a tree is generated, written by the harness printer and parsed by Expr::parse: the result T is in the parser's image by construction. Then T.to_string() is parsed again and must equal T; every 4th pair is also evaluated and compared. Trees: 41 literal/name leaves alone and under every composite node kind in every slot; every composite kind under every composite kind in every slot; ~70 look-alike names (f, d, i, e, x, d0x, i5x, inx, nonex ...) in every identifier position (reference, symbol, function name, field step, map key) alone, under every composite and before numeric indexes; lists and maps of 13..5000 items; random trees to depth 6 over the boundary pool. A failure is reduced to the smallest failing sub-expression, whose construct is the signature. Every case is non-trivial; distinct by tree".into(),
         exhaustive: false,
         exhaustive_part: "leaf x composite x slot and composite x composite x slot products are complete".into(),
         ..Default::default()
